@@ -242,4 +242,79 @@ example : (final init tightStream).skips = 3 ∧ (707 + 4 * 177) / 354 = 3 := by
 example : Bucket 270 0 (idleCycle :: (List.replicate 270 (busyCycle 1) ++ [idleCycle, idleCycle])) := by
   decide +kernel
 
+/-! ## The window hypothesis in plain form -/
+
+/-- The plain reading of "an idle opportunity at least once in every window of `W` transfers": every
+`W` consecutive cycles of the stream contain one with `can_send_skip = 1`. -/
+def WindowsHaveIdle (W : Nat) (ins : List In) : Prop :=
+  ∀ k, k + W ≤ ins.length → ∃ i ∈ (ins.drop k).take W, i.canSend = true
+
+theorem idleEvery_of_windows_aux (W c : Nat) (ins : List In) (hc : c < W) (hw : WindowsHaveIdle W ins)
+    (hf : W - c ≤ ins.length → ∃ i ∈ ins.take (W - c), i.canSend = true) : IdleEvery W c ins := by
+  induction ins generalizing c with
+  | nil => trivial
+  | cons i is ih =>
+    have hw' : WindowsHaveIdle W is := by
+      intro k hk
+      have := hw (k + 1) (by simp only [List.length_cons]; omega)
+      simpa only [List.drop_succ_cons] using this
+    unfold IdleEvery
+    cases hcs : i.canSend
+    · simp only [Bool.false_eq_true, if_false]
+      have hm : W - c = (W - c - 1) + 1 := by omega
+      have hlt : c + 1 < W := by
+        apply Nat.lt_of_le_of_ne (by omega)
+        intro hcw
+        have h1 : W - c = 1 := by omega
+        obtain ⟨j, hj, hjc⟩ := hf (by rw [h1]; simp)
+        rw [h1] at hj
+        simp only [List.take_succ_cons, List.take_zero, List.mem_singleton] at hj
+        rw [hj, hcs] at hjc
+        exact absurd hjc (by decide)
+      have hv : (if i.sink.valid = true then 1 else 0) ≤ 1 := by split <;> omega
+      refine ⟨by omega, ih _ (by omega) hw' ?_⟩
+      intro hlen
+      obtain ⟨j, hj, hjc⟩ := hf (by simp only [List.length_cons]; omega)
+      rw [hm, List.take_succ_cons, List.mem_cons] at hj
+      rcases hj with rfl | hj
+      · rw [hcs] at hjc
+        exact absurd hjc (by decide)
+      · exact ⟨j, List.take_subset_take_left is (by omega) hj, hjc⟩
+    · simp only [if_true]
+      refine ih 0 (by omega) hw' ?_
+      intro hlen
+      have := hw 1 (by simp only [List.length_cons]; omega)
+      simpa using this
+
+/-- Every `W` consecutive cycles contain an idle opportunity ⇒ `IdleEvery W` (which only counts the
+cycles in which a valid word is offered, so it is the weaker hypothesis). -/
+theorem idleEvery_of_windows (W : Nat) (hW : 1 ≤ W) (ins : List In) (hw : WindowsHaveIdle W ins) :
+    IdleEvery W 0 ins := by
+  apply idleEvery_of_windows_aux W 0 ins (by omega) hw
+  intro hlen
+  have := hw 0 (by omega)
+  simpa using this
+
+/-- **C33 (c), plain window form**: an idle opportunity in every `W` consecutive cycles, `1 ≤ W ≤ 177`. -/
+theorem ctc_bounded_fairness_windows (W : Nat) (hW1 : 1 ≤ W) (hW : W ≤ 177) (idle : Beat → Prop)
+    (ins : List In) (hw : WindowsHaveIdle W ins) (he : Env idle ins) :
+    NoWrap init ins ∧
+    (∀ st ∈ states init ins, st.skips ≤ (707 + 4 * W) / 354 ∧ st.skips ≤ 3) ∧
+    (∀ pre suf, ins = pre ++ suf →
+      2 * sentWords init pre ≤ 4 * transfers init pre / 354 ∧
+      4 * transfers init pre / 354 ≤ 2 * sentWords init pre + (707 + 4 * W) / 354) ∧
+    ((txBeats init ins).map (fun b => (b.valid, b.syms)) =
+      List.zipWith (fun (i : In) (f : Bool) => if f then (true, SKP4) else (i.sink.valid, i.sink.syms))
+        ins (sendFlags init ins) ∧
+     (sendFlags init ins).length = ins.length ∧
+     (∀ p ∈ List.zip ins (sendFlags init ins), p.2 = true → p.1.canSend = true ∧ idle p.1.sink)) ∧
+    (∀ p ∈ List.zip ins (txBeats init ins), ¬ idle p.1.sink → p.2 = p.1.sink) :=
+  ctc_bounded_fairness W hW1 hW idle ins (idleEvery_of_windows W hW1 ins hw) he
+
+example : WindowsHaveIdle 3 [idleCycle, busyCycle 1, busyCycle 2, idleCycle, busyCycle 3, idleCycle, idleCycle] := by
+  have H : ∀ k, k ≤ 4 → ∃ i ∈ (List.drop k [idleCycle, busyCycle 1, busyCycle 2, idleCycle, busyCycle 3,
+      idleCycle, idleCycle]).take 3, i.canSend = true := by decide
+  intro k hk
+  exact H k (by simp only [List.length_cons, List.length_nil] at hk; omega)
+
 end LunaVerif.CtcInserter
